@@ -94,6 +94,9 @@ def campaign_lex(ck: Check, n: int) -> None:
         else:
             ck.infra_errors.append(f"driver reply {rep!r} for lex case")
             continue
+        if raw and text.startswith(q * 3):
+            camp.unmodelled += 1  # triple-quoted raw literals are not produced by the generator and not modelled
+            continue
         if model is None and impl is not None and ("\\N" in text or "\\u" in text.lower()):
             camp.unmodelled += 1
             continue
